@@ -76,6 +76,8 @@ def op_has_null_keys(gb, v, m, np_=None):
 
 OPS = {"sum": op_sum, "max": op_max, "count_ikey": op_count_ikey, "ikey_count(cached)": op_ikey_count_cached, "transform_sum": op_transform_sum,
        "transform_max": op_transform_max, "unify(keep_chunked)": op_unify_keep, "unify": op_unify, "cumsum": op_cumsum, "rolling_max": op_rolling_max}
+CFIRST = ("apply(mask)", "group_sort_indexer", "head", "cumsum", "transform_max", "ema", "unify(keep_chunked)", "count_ikey(mask)")
+CSECOND = ("apply", "apply(mask)", "ikey_count", "sum(mask)", "transform_max", "group_sort_indexer", "head", "cumsum")
 FIRST = ("sum", "ikey_count(cached)", "transform_sum", "unify(keep_chunked)", "unify", "cumsum", "count_ikey")
 SECOND = ("sum", "transform_max", "count_ikey", "cumsum", "rolling_max", "ikey_count(cached)")
 
@@ -110,10 +112,11 @@ def cases(tier, seed):
             for a, b, c in itertools.product(("transform_sum", "unify(keep_chunked)", "cumsum"), ("sum", "unify", "ikey_count(cached)"), ("transform_max", "count_ikey", "sum")):
                 out.append({"kind": "sequence", "rep": "chunked+pointers", "lengths": lengths, "N": N, "G": G, "first": a, "middle": b, "second": c,
                             "name": f"[{a}; {b}; {c}] on one object == {c} on a fresh one/chunked+pointers {ln},G={G}"})
-    for rep in REPS:
-        for second in ("apply", "apply(mask)", "ikey_count", "sum"):
-            out.append({"kind": "apply_seq", "rep": rep, "N": 4, "G": 2, "second": second,
-                        "name": f"[apply(mask); {second}] on one object == {second} on a fresh one/{rep}/N=4,G=2/all code sequences x masks"})
+    for rep in (REPS if tier == "thorough" else REPS[1:]):
+        for first in CFIRST:
+            for second in CSECOND:
+                out.append({"kind": "apply_seq", "rep": rep, "N": 4, "G": 2, "first": first, "second": second, "stride": 1 if tier == "thorough" else 4,
+                            "name": f"[{first}; {second}] on one object == {second} on a fresh one/{rep}/N=4,G=2/enumerated code sequences, symbolic values"})
     for rep in REPS:
         out.append({"kind": "copy", "rep": rep, "lengths": lays[0], "N": N, "G": G, "name": f"GroupBy(existing) behaves like the original/{rep}"})
     for lengths in lays[:2]:
@@ -365,10 +368,42 @@ def _concrete_state(E, case, codes):
     return make_gb(E, G, chunks=[A(l0, "int64"), A(l1, "int64")], pointers=[A(p0, "int64"), A(p1, "int64")])
 
 
+def _cop(name, gb, v, m, user, real=False):
+    """operations usable in enumerated-code sequences, on the shadow stub and on the real class alike"""
+    if name == "apply(mask)":
+        return [_arr(gb.apply(v, user, m))] if not real else [gb.apply(v, user, m)]
+    if name == "apply":
+        return [_arr(gb.apply(v, user, None))] if not real else [gb.apply(v, user, None)]
+    if name == "ikey_count":
+        return [gb.ikey_count]
+    if name == "sum(mask)":
+        return op_sum(gb, v, m)
+    if name == "count_ikey(mask)":
+        return [gb.count_ikey(m)]
+    if name == "transform_max":
+        return op_transform_max(gb, v, None)
+    if name == "group_sort_indexer":
+        return [gb._group_sort_indexer]
+    if name == "head":
+        if real:
+            import pandas as pd
+            return [gb.head(pd.Series(v), 2, keep_input_index=True).sort_index()]
+        return [_arr(gb.head(v, 2))]
+    if name == "cumsum":
+        return op_cumsum(gb, v, None)
+    if name == "ema":
+        return [_arr(gb.ema(v, alpha=0.5))] if not real else [gb.ema(v, alpha=0.5)]
+    if name == "unify(keep_chunked)":
+        gb._unify_group_key_chunks(keep_chunked=True)
+        return []
+    raise Unsupported(name)
+
+
 def run_apply_seq(E, case):
     t0 = time.time()
     from . import ema as EM
     N, G = case["N"], case["G"]
+    first, second = case.get("first", "apply(mask)"), case["second"]
     res = EM._blank()
     F = z3.Function("user_func", z3.IntSort(), *([z3.RealSort()] * N), z3.RealSort())
 
@@ -376,19 +411,10 @@ def run_apply_seq(E, case):
         cells = sub.cells if isinstance(sub, A) else list(sub)
         args = [c.v if isinstance(c, SF) else z3.RealVal(c) for c in cells] + [z3.RealVal(0)] * (N - len(cells))
         return SF(False, F(z3.IntVal(len(cells)), *args))
-
-    def second_op(gb, v, m2):
-        k = case["second"]
-        if k == "apply":
-            return [_arr(gb.apply(v, user, None))]
-        if k == "apply(mask)":
-            return [_arr(gb.apply(v, user, m2))]
-        if k == "ikey_count":
-            return [gb.ikey_count]
-        return op_sum(gb, v, None)
-    masks1 = [m for m in itertools.product([True, False], repeat=N) if not all(m)][::3]
+    masks1 = [m for m in itertools.product([True, False], repeat=N) if not all(m)][::3] if "mask" in first else [None]
     m2bits = [True, False] * (N // 2) + [True] * (N % 2)
-    for codes in itertools.product(range(-1, G), repeat=N):
+    allcodes = list(itertools.product(range(-1, G), repeat=N))[:: case.get("stride", 1)]
+    for codes in allcodes:
         nn = sum(1 for c in codes if c >= 0)
         if nn == 0:
             continue
@@ -397,30 +423,30 @@ def run_apply_seq(E, case):
             v1 = inp.floats("v", N, nullable=False)
             v2 = inp.floats("w", N, nullable=False)
             inp.vars["codes"] = ("const", list(codes), "int64")
-            inp.vars["mask1"] = ("const", [int(b) for b in m1], "int64")
             rt = fresh_runtime()
             rt.size_hints = [nn]
-            extra = {"codes": list(codes), "mask1": [bool(b) for b in m1], "mask2": m2bits}
+            rt.div_obligation = True
+            extra = {"codes": list(codes), "mask1": [bool(b) for b in m1] if m1 is not None else None, "mask2": m2bits}
             try:
                 gb = _concrete_state(E, case, codes)
-                gb.apply(A(v1, "float64").tag("input:values"), user, A(list(m1), "bool").tag("input:mask"))
-                used = second_op(gb, A(v2, "float64").tag("input:values"), A(m2bits, "bool"))
-                fresh = second_op(_concrete_state(E, case, codes), A(v2, "float64"), A(m2bits, "bool"))
+                _cop(first, gb, A(v1, "float64").tag("input:values"), A(list(m1), "bool").tag("input:mask") if m1 is not None else None, user)
+                used = _cop(second, gb, A(v2, "float64").tag("input:values"), A(m2bits, "bool"), user)
+                fresh = _cop(second, _concrete_state(E, case, codes), A(v2, "float64"), A(m2bits, "bool"), user)
             except (Unsupported, OutsideModel):
                 raise
             except Exception as e:      # noqa: BLE001
                 res["verdict"] = "sat"
                 res["subcases"] += 1
                 if len(res["candidates"]) < 3:
-                    res["candidates"].append({"signature": f"{PROP}:raises:{type(e).__name__}:apply_seq:{case['second']}:{case['rep']}", "case": dict(case, **extra),
+                    res["candidates"].append({"signature": f"{PROP}:raises:{type(e).__name__}:seq:{first}->{second}:{case['rep']}", "case": dict(case, **extra),
                                               "inputs": {"v": [1.0 * (i + 1) for i in range(N)], "w": [10.0 * (i + 1) for i in range(N)]}, "kind": "raises",
                                               "labels": [f"{type(e).__name__}: {str(e)[:160]}"]})
                 continue
-            bl = _compare(case["second"] + " after apply(mask)", [_objcells(x) for x in used], [_objcells(x) for x in fresh])
+            bl = _compare(f"{second} after {first}", [_objcells(x) for x in used], [_objcells(x) for x in fresh])
             dec = decide(inp, [(lab, b) for lab, b in bl], rt)
             EM_merge(res, dec, case, extra)
     res["symex_s"] = time.time() - t0 - res["solver_s"]
-    res["encoded"] = sorted(E.encoded) + ["groupby_lib/groupby/core.py::apply"]
+    res["encoded"] = sorted(E.encoded) + ["groupby_lib/groupby/core.py::apply", "groupby_lib/groupby/core.py::head"]
     res["witnesses"] = {f"{res['subcases']} (code sequence, first mask) pairs decided": True}
     return res
 
@@ -444,7 +470,7 @@ def EM_merge(res, dec, case, extra):
         res["verdict"] = "sat"
         model = dec.model if dec.verdict == "sat" else dec.ob_model
         if len(res["candidates"]) < 4:
-            res["candidates"].append({"signature": f"{PROP}:apply_seq:{case['second']}:{case['rep']}", "case": dict(case, **extra), "inputs": jsonable(model),
+            res["candidates"].append({"signature": f"{PROP}:seq:{case.get('first', 'apply(mask)')}->{case['second']}:{case['rep']}", "case": dict(case, **extra), "inputs": jsonable(model),
                                       "kind": "property", "labels": dec.which[:4] + [f"{a}@{b}" for a, b in dec.failed_obligations[:3]]})
 
 
@@ -473,6 +499,7 @@ def _real_state(case, conc, rep=None):
 def _replay_apply_seq(case, v1, v2):
     N, G, codes = case["N"], case["G"], case["codes"]
     half = N // 2
+    first, second = case.get("first", "apply(mask)"), case["second"]
 
     def state():
         if case["rep"] == "contiguous":
@@ -485,27 +512,19 @@ def _replay_apply_seq(case, v1, v2):
 
     def user(a):
         return float(real_np.sum(a * real_np.arange(1, len(a) + 1)))
-
-    def second(gb):
-        k = case["second"]
-        if k == "apply":
-            return [gb.apply(v2, user, None)]
-        if k == "apply(mask)":
-            return [gb.apply(v2, user, real_np.array(case["mask2"], dtype=bool))]
-        if k == "ikey_count":
-            return [gb.ikey_count]
-        return op_sum(gb, v2, None)
+    m1 = real_np.array(case["mask1"], dtype=bool) if case.get("mask1") is not None else None
+    m2 = real_np.array(case["mask2"], dtype=bool)
     gb = state()
-    gb.apply(v1, user, real_np.array(case["mask1"], dtype=bool))
-    a = _real_cells(second(gb))
-    b = _real_cells(second(state()))
+    _cop(first, gb, v1, m1, user, real=True)
+    a = _real_cells(_cop(second, gb, v2, m2, user, real=True))
+    b = _real_cells(_cop(second, state(), v2, m2, user, real=True))
     bad = []
     for k, (x, y) in enumerate(zip(a, b)):
         if len(x) != len(y):
             bad.append((k, "length"))
             continue
         bad += [(k, i) for i in range(len(x)) if not approx_same(x[i], y[i])]
-    return bool(bad), {"used_object": jsonable(a), "fresh_object": jsonable(b), "differ": jsonable(bad[:6]), "codes": codes, "mask1": case["mask1"]}
+    return bool(bad), {"used_object": jsonable(a), "fresh_object": jsonable(b), "differ": jsonable(bad[:6]), "codes": codes, "mask1": case.get("mask1")}
 
 
 def _real_cells(outs):
